@@ -50,7 +50,7 @@ func vAudienceOK(v interface{}, allowed func(string) bool) bool {
 	return false
 }
 
-// verif: unwind=6 strlen=8 also=C04,C19
+// verif: unwind=6 strlen=8 also=C04,C19,C01
 func vh_C14_aud() {
 	clientID := ndString("client-id")
 	extra := ndString("extra-audience")
